@@ -15,6 +15,9 @@
 //                                                          their model index = executed index mod threads): the Lean driver must
 //                                                          accept it as a run of the ParallelExecutor transition system WITHOUT
 //                                                          spurious wake-ups (trace inclusion implementation -> model)
+//   I p2dplan <grid> <numProcessors>                      ONLY when the library was built with notes/C33_trace_hook.patch
+//       O p2dplan bins <binStart[0..bins]>                 applied (weak symbol SimTK_verif_parallelTraceHook present): the
+//       O p2dplan pass <p> <x:y>...                        internal partition reported by the hook vs. the model's plan
 // P lines (the property's own predicates on the implementation): see each case.  Every record's I line is printed and
 // flushed BEFORE the executor runs; a watchdog thread turns a hang (no progress for 30 s) into `P no_deadlock <key> 1 0`.
 // rt: 0 FullMatrix, 1 HalfMatrix, 2 HalfPlusDiagonal.
@@ -307,6 +310,32 @@ static void p2dCase(bool ext, int grid, int np, int rt, uint64_t yseed, long fak
     caseEnd();
 }
 
+// optional: the add-only trace hook of notes/C33_trace_hook.patch (weak reference: null when the patch is not applied)
+extern "C" { extern void (*SimTK_verif_parallelTraceHook)(const char* where, int a, int b) __attribute__((weak)); }
+static std::vector<int> g_planBins; static std::vector<std::vector<std::pair<int,int> > > g_planPasses; static int g_planLastX = 0;
+static void planHook(const char* where, int a, int b) {
+    std::string w(where);
+    if (w == "p2d.binStart") { if ((int)g_planBins.size() <= a) g_planBins.resize(a + 1); g_planBins[a] = b; }
+    else if (w == "p2d.square.pass_x") { if ((int)g_planPasses.size() <= a) g_planPasses.resize(a + 1); g_planLastX = b; }
+    else if (w == "p2d.square.pass_y") { if ((int)g_planPasses.size() <= a) g_planPasses.resize(a + 1); g_planPasses[a].push_back({g_planLastX, b}); }
+}
+static void p2dPlanCase(int grid, int np) {
+    if (&SimTK_verif_parallelTraceHook == nullptr) return;
+    g_planBins.clear(); g_planPasses.clear();
+    SimTK_verif_parallelTraceHook = planHook;
+    { Parallel2DExecutor ex(grid, np); }
+    SimTK_verif_parallelTraceHook = nullptr;
+    vh::I("p2dplan").i(grid).i(np).emit();
+    { vh::Line o = vh::O("p2dplan"); o.s("bins"); for (int b : g_planBins) o.i(b); o.emit(); }
+    for (size_t p = 0; p < g_planPasses.size(); ++p) {
+        if (g_planPasses[p].empty()) continue;                       // empty passes (the last one always is) are not listed
+        vh::Line o = vh::O("p2dplan"); o.s("pass").i((long long)p);
+        for (auto& sq : g_planPasses[p]) o.s(std::to_string(sq.first) + ":" + std::to_string(sq.second));
+        o.emit();
+    }
+    vh::D("p2d.partition_compared_via_hook");
+}
+
 // ---------------------------------------------------------------------------------------------------------------
 static std::vector<std::atomic<int> > g_execCount(0), g_delCount(0);
 static std::atomic<long> g_completed{0};
@@ -370,6 +399,8 @@ static void replay() {
                                         if (want != ParallelExecutor::getNumProcessors()) fake = want; }
             p2dCase(ext, std::atoi(t[1].c_str()), std::atoi(t[2].c_str()), std::atoi(t[3].c_str()),
                     std::strtoull(t[4].c_str(), nullptr, 10), fake, "replay");
+        } else if (fn == "p2dplan" && t.size() >= 2) {
+            p2dPlanCase(std::atoi(t[0].c_str()), std::atoi(t[1].c_str()));
         } else if (fn == "wq" && t.size() >= 3) {
             std::vector<std::string> ops(t.begin() + 3, t.end());
             wqCase(std::atoi(t[0].c_str()), std::atoi(t[1].c_str()), std::strtoull(t[2].c_str(), nullptr, 10), ops, "replay");
@@ -410,7 +441,7 @@ int main(int argc, char** argv) {
             int grid = c == 0 ? g.below(4) : c == 1 ? (g.below(4) == 0 ? 128 : 64) : c == 2 ? 1 + g.below(12) : g.below(65);
             int rt = g.below(3);
             if (g.below(3) == 0) p2dCase(true, grid, th, rt, ys, 0, "mix");
-            else p2dCase(false, grid, g.coin() ? th : 1 + g.below(40), rt, ys, 0, "mix");
+            else { int np = g.coin() ? th : 1 + g.below(40); p2dCase(false, grid, np, rt, ys, 0, "mix"); p2dPlanCase(grid, np); }
         } else {                                                   // ParallelWorkQueue, one producer
             int qs = 1 + g.below(g.coin() ? 4 : 64);
             int nops = 1 + g.below(6);
